@@ -155,7 +155,7 @@ func c20Case(c *Ctx, ids []string, junk []string, walkSizes []int64) error {
 		}
 	}
 	for _, bm := range bookmarks {
-		for _, size := range []int64{1, 2, int64(inRange), int64(inRange) + 1} {
+		for _, size := range []int64{1, 2, int64(inRange), int64(inRange) + 1, 2147483647} {
 			if size < 1 {
 				continue
 			}
@@ -179,6 +179,7 @@ func c20Case(c *Ctx, ids []string, junk []string, walkSizes []int64) error {
 			sizes = append(sizes, size)
 		}
 	}
+	sizes = append(append([]int64{}, sizes...), 2147483646, 2147483647) // "everything in one page": the largest sizes the interface takes
 	for _, size := range sizes {
 		var got []string
 		bm := ""
@@ -226,7 +227,7 @@ func errClassShort(msg string) string {
 
 func genC20(c *Ctx) error {
 	c.ShardSize = 6
-	c.Notes["rule"] = "each case: fresh chaincode; 0-9 origin-side transfers created through signed batched channelTransferByCustomer with ids from a pool (ids that are prefixes of each other, ids that differ only by trailing or leading white space, ids at and beyond '~', multi-byte ids, duplicate ids, and ids on which path.Join is not concatenation: '.', '..', 'a/', '../to/x', 'a//b'), then committed / cancelled / committed+deleted at random; two destination-side records and unrelated keys just outside the range; all page sizes 1..n+1 walked from the empty bookmark; single queries for sizes {1,2,n,n+1,0,-1,-100} x bookmarks {empty, every transfer key, keys outside the range, a non-existing key inside the range, the end key}. Plus long listings: 130-260 records created in a permuted order, walked with page sizes 1, 7, 64, 99, 100, 101, 115, n-1, n, n+3, 1000. Non-trivial: >= 2 records in range."
+	c.Notes["rule"] = "each case: fresh chaincode; 0-9 origin-side transfers created through signed batched channelTransferByCustomer with ids from a pool (ids that are prefixes of each other, ids that differ only by trailing or leading white space, ids at and beyond '~', multi-byte ids, duplicate ids, and ids on which path.Join is not concatenation: '.', '..', 'a/', '../to/x', 'a//b'), then committed / cancelled / committed+deleted at random; two destination-side records and unrelated keys just outside the range; all page sizes 1..n+1 and the two largest sizes the interface takes (2^31-2, 2^31-1) walked from the empty bookmark; single queries for sizes {1,2,n,n+1,2^31-1,0,-1,-100} x bookmarks {empty, every transfer key, keys outside the range, a non-existing key inside the range, the end key}. Plus long listings: 130-260 records created in a permuted order, walked with page sizes 1, 7, 64, 99, 100, 101, 115, n-1, n, n+3, 1000. Non-trivial: >= 2 records in range."
 	rng := c.Rng
 	clean := []string{"a", "ab", "b", "a0", "zz", "é", "0", "A", "abc", "b-1", "~", "a b", "a ", "a\t", "ab ", " a", "~z", "\u007f", "振込"}
 	unclean := []string{".", "..", "a/", "../to/x", "a//b", "x/y"}
